@@ -94,13 +94,59 @@ func runC15(s *Sim) {
 		step = Pick(t, "big-step", time.Minute, 7*time.Second, 10*time.Minute)
 	}
 	brokerPings := 0
+	// inbound end-to-end calls that the application never picks up (it does not use ReceiveCall):
+	// they must not get in the way of the keepalive exchange
+	unconsumed := 0
+	if mode == "live" && t.Bool("unconsumed-inbound-calls", 1, 4) {
+		unconsumed = Pick(t, "unconsumed-n", 5, 12, 40, 300)
+	}
 	for s.Now() < horizon {
+		if unconsumed > 0 && s.Now() > iv/2 {
+			for _, l := range y.aliveLinks() {
+				for k := 0; k < unconsumed; k++ {
+					s.Broker.EmitCall(l, fmt.Sprintf("unconsumed-%d", k), "", "peer", "n", []byte("p"))
+				}
+				l.DeliverAll()
+			}
+			s.StatN("env.inbound-calls-nobody-receives", unconsumed)
+			unconsumed = 0
+		}
 		if traffic && s.Idle(1) && t.Bool("write", 1, 3) {
 			s.Start(1, y.writeOp(h, 1, dataID(0), []int{16}))
 		}
 		if t.Bool("broker-ping", 1, 8) {
 			for _, l := range y.aliveLinks() {
 				if l.bc != nil && l.bc.Connected {
+					if t.Bool("broker-ping-burst-behind-slow-link", 1, 3) {
+						// several broker pings arrive back to back while the link does not take the
+						// client's writes for a moment (no time passes): each gets its own pong
+						k := Pick(t, "ping-burst", 2, 3, 5)
+						l.StallWrites()
+						var ids []uint32
+						for j := 0; j < k; j++ {
+							ids = append(ids, s.Broker.EmitPing(l))
+							l.DeliverAll()
+							s.Wait()
+						}
+						l.ResumeWrites()
+						s.Wait()
+						brokerPings += k
+						s.Stat("env.broker-ping-burst-behind-slow-link")
+						s.mu.Lock()
+						answered := map[uint32]int{}
+						for _, p := range l.PongLog {
+							answered[p.ID]++
+						}
+						dead := l.isDead || l.clientClosed
+						s.mu.Unlock()
+						for _, id := range ids {
+							if answered[id] != 1 && !dead {
+								s.Violate("C15.broker-ping-unanswered", "burst", "broker pings %v arrived back to back while the link was slow to take writes: ping %d was answered %d times", ids, id, answered[id])
+								break
+							}
+						}
+						break
+					}
 					id := s.Broker.EmitPing(l)
 					l.DeliverAll()
 					s.Wait()
